@@ -57,6 +57,7 @@ type Config struct {
 	ClockSkewMs     []int  `json:"clock_skew_ms"`
 	NaturalMapOrder bool   `json:"natural_map_order"`
 	ELMaxOps        int    `json:"el_max_ops,omitempty"` // user operations per execution block (0: 12)
+	LastExit        bool   `json:"last_exit,omitempty"`  // the run ends with every validator unlocking everything (can the set empty itself?)
 	Bursts          bool   `json:"bursts,omitempty"`     // generators may emit bursts larger than the per-block hand-over caps
 
 	FaultFree bool               `json:"fault_free"`
